@@ -515,6 +515,34 @@ class FirstMatch(_Bodies):
                         if isinstance(y, ast.Name):
                             y.ctx = ast.Store()
                     continue
+            # i = 0; while i < N: i += 1; body     ->     for i in range(N): body       (i counts the rounds and nothing else: not read in the
+            # body or after the loop, incremented once at the top level - first, or last with no `continue` - and N is a name or constant the
+            # body does not assign)
+            if self.fn and isinstance(st, ast.While) and not st.orelse and out and isinstance(st.test, ast.Compare) and len(st.test.ops) == 1 \
+                    and isinstance(st.test.ops[0], ast.Lt) and isinstance(st.test.left, ast.Name) \
+                    and isinstance(st.test.comparators[0], (ast.Name, ast.Constant)):
+                iv, bound_e = st.test.left.id, st.test.comparators[0]
+                prev = out[-1]
+                init = isinstance(prev, ast.Assign) and len(prev.targets) == 1 and isinstance(prev.targets[0], ast.Name) and prev.targets[0].id == iv \
+                    and isinstance(prev.value, ast.Constant) and prev.value.value == 0 and type(prev.value.value) is int
+                is_inc = lambda s: (isinstance(s, ast.AugAssign) and isinstance(s.op, ast.Add) and isinstance(s.target, ast.Name) and s.target.id == iv
+                                    and isinstance(s.value, ast.Constant) and s.value.value == 1) or \
+                    (isinstance(s, ast.Assign) and len(s.targets) == 1 and isinstance(s.targets[0], ast.Name) and s.targets[0].id == iv
+                     and ast.unparse(s.value).replace(" ", "") in (f"{iv}+1", f"1+{iv}"))
+                incs = [k for k, s in enumerate(st.body) if is_inc(s)]
+                rest = [s for k, s in enumerate(st.body) if k not in incs]
+                mentions = lambda nodes, nm: any(isinstance(y, ast.Name) and y.id == nm for s in nodes for y in ast.walk(s))
+                has_continue = any(isinstance(y, ast.Continue) for s in rest for y in ast.walk(s))
+                inside = {id(y) for y in ast.walk(st)} | {id(y) for y in ast.walk(prev)}
+                used_elsewhere = any(isinstance(y, ast.Name) and y.id == iv and id(y) not in inside for y in ast.walk(self.fn[-1]))
+                bound_ok = isinstance(bound_e, ast.Constant) or not any(isinstance(y, ast.Name) and y.id == bound_e.id and isinstance(y.ctx, ast.Store)
+                                                                       for s in st.body for y in ast.walk(s))
+                if init and len(incs) == 1 and (incs[0] == 0 or (incs[0] == len(st.body) - 1 and not has_continue)) and rest \
+                        and not mentions(rest, iv) and not used_elsewhere and bound_ok:
+                    out.pop()
+                    rng = ast.Call(func=ast.Name(id="range", ctx=ast.Load()), args=[bound_e], keywords=[])
+                    out.append(_loc(ast.For(target=ast.Name(id=iv, ctx=ast.Store()), iter=rng, body=rest, orelse=[], type_comment=None), st))
+                    continue
             # for t in it: assert [not] E, msg   ->   assert all(E for t in it) / not any(E for t in it), msg     (msg does not mention
             # t, and t is not used after the loop: the quantified form leaks nothing)
             if self.fn and isinstance(st, ast.For) and not st.orelse and len(st.body) == 1 and isinstance(st.body[0], ast.Assert):
@@ -565,6 +593,19 @@ class Untuple(_Bodies):
 
     def process(self, body):
         out = []
+        pending = list(body)
+        body = []
+        for st in pending:
+            # a, b = (x, y) if c else (u, v)   ->   if c: a, b = x, y  else: a, b = u, v      (the test is evaluated once either way)
+            if isinstance(st, ast.Assign) and len(st.targets) == 1 and isinstance(st.targets[0], ast.Tuple) and isinstance(st.value, ast.IfExp) \
+                    and isinstance(st.value.body, ast.Tuple) and isinstance(st.value.orelse, ast.Tuple) \
+                    and len(st.value.body.elts) == len(st.value.orelse.elts) == len(st.targets[0].elts):
+                import copy as _c
+                a1 = _loc(ast.Assign(targets=[_c.deepcopy(st.targets[0])], value=st.value.body), st)
+                a2 = _loc(ast.Assign(targets=[_c.deepcopy(st.targets[0])], value=st.value.orelse), st)
+                body.append(_loc(ast.If(test=st.value.test, body=self.process([a1]), orelse=self.process([a2])), st))
+            else:
+                body.append(st)
         for st in body:
             if isinstance(st, ast.Assign) and len(st.targets) == 1 and isinstance(st.targets[0], ast.Tuple) and isinstance(st.value, ast.Tuple) \
                     and len(st.targets[0].elts) == len(st.value.elts) and all(isinstance(e, ast.Name) for e in st.targets[0].elts) \
